@@ -17,6 +17,7 @@ type sweepSpec struct {
 	FullHdr   int  // full header product for programs with <= FullHdr tokens in total
 	Flags     bool // entries may contain inline flag groups
 	Struct2   int  // stratum B2: bodies of <= Struct2 lines over structLines2 (at least one line outside structLines)
+	RawHalves bool // stratum P2: raw token sequences as prefix and suffix (programs that compile are judged, the others are outside)
 	PreSuf    bool // stratum P: every pair (prefix, suffix) of group-ish entries around a fixed body
 	HdrOnly   bool // stratum H: programs whose body assembles to nothing (prefix / suffix lines only, empty blocks)
 }
@@ -103,6 +104,24 @@ func (s sweepSpec) programs(shard, n int, visit func(stratum string, p Prog)) (t
 			}
 		}
 	}
+	// stratum U: entries of <= 2 tokens (pairs of <= 1) with an upper-case escape class, under all four flag settings
+	isUpper := func(e []string) bool {
+		return strings.Contains(strings.Join(e, ""), `\S`) || strings.Contains(strings.Join(e, ""), `\D`) || strings.Contains(strings.Join(e, ""), `\W`)
+	}
+	flagHdrs := []header{{}, {Flags: "i"}, {Flags: "s"}, {Flags: "is"}, {"i", "x", "y"}}
+	for _, e := range enumEntriesFlags(upperTokens, 2, s.Flags) {
+		if isUpper(e) {
+			emit("U", [][]string{e}, flagHdrs)
+		}
+	}
+	ups := enumEntriesFlags(upperTokens, 1, s.Flags)
+	for _, e1 := range ups {
+		for _, e2 := range ups {
+			if isUpper(e1) || isUpper(e2) {
+				emit("U", [][]string{e1, e2}, flagHdrs[:4])
+			}
+		}
+	}
 	if s.HdrOnly {
 		// flag lines in every spelling the parser may accept: whatever compiles must print lower-case i/s only
 		for _, f := range []string{"I", "S", "Is", "iS", "SI", "si", "ii", "sis", "i s", "m", "U"} {
@@ -162,7 +181,7 @@ func (s sweepSpec) programs(shard, n int, visit func(stratum string, p Prog)) (t
 			}
 		}
 	}
-	if s.PreSuf {
+	if s.RawHalves {
 		// halves that are not expressions of their own (an open group in the prefix, its end in the suffix, stray
 		// parentheses): every raw token sequence of <= 2 tokens on either side
 		var raw []string
@@ -373,7 +392,7 @@ func shrinkProg(p Prog, valid func(Prog) bool, fails func(Prog) bool) Prog {
 		}
 		// simplify tokens
 		simpler := map[string]string{"ab": "a", "b": "a", "c": "a", "a-c": "a", "!-~": "a", "{2}": "?", "+": "?", "*": "?", "(": "(?:",
-			`\"`: `"`, `\Q"\E`: `"`, `\x22`: `"`, `\x5c`: `\\`, `\x{2019}`: "é", "\x7f": "\x01",
+			`\"`: `"`, `\Q"\E`: `"`, `\x22`: `"`, `\x5c`: `\\`, `\x{2019}`: "é", "\x7f": "\x01", `\D`: `\s`, `\S`: ".", `\W`: `\s`,
 			"##!> cmdline windows": "##!> cmdline unix", "  a": "a", "a~": "aa", "b@": "aa", "{{d}}b": "aa", "aa": "a"}
 		for i := 0; i < len(p.Lines); i++ {
 			for j := 0; j < len(p.Lines[i]); j++ {
